@@ -41,13 +41,33 @@ pub fn run(args: &[String]) -> i32 {
             "both" => vec![(Some(1), Some(999), Some(0)), (Some(1), Some(101), None)],
             _ => vec![],
         };
-        let spec = NodeSpec { endpoints: vec![(1, vec![ClusterSpec { id: 101, attrs, cmds: vec![] }])], events: evs.iter().map(|n| (1u16, 101u32, 0u32, *n)).collect() };
+        // "split": k puts the attributes from the k-th on into a second cluster (102) and selects the whole endpoint;
+        // "dvf": "match" | "mismatch" adds a data-version filter for cluster 101 with the version the node has (the
+        // cluster is then left out of the answer) or another one; "evmin": n adds an event filter
+        let split = if b.is_array() { None } else { b["split"].as_u64().map(|k| (k as usize).min(attrs.len())) };
+        let dvf = if b.is_array() { "" } else { b["dvf"].as_str().unwrap_or("") };
+        let clusters = match split {
+            Some(k) => {
+                let second = attrs.split_off(k);
+                vec![ClusterSpec { id: 101, attrs, cmds: vec![] }, ClusterSpec { id: 102, attrs: second, cmds: vec![] }]
+            }
+            None => vec![ClusterSpec { id: 101, attrs, cmds: vec![] }],
+        };
+        if dvf == "match" {
+            let k = split.unwrap_or(expect.len());
+            expect.drain(..k);
+        }
+        let ev_min = if b.is_array() { None } else { b["evmin"].as_u64() };
+        let spec = NodeSpec { endpoints: vec![(1, clusters)], events: evs.iter().map(|n| (1u16, 101u32, 0u32, *n)).collect() };
+        // events are numbered from 1 in the order queued: an event filter leaves out the ones before its minimum
+        let evs: Vec<usize> = evs.iter().enumerate().filter(|(i, _)| ev_min.map(|m| (*i as u64 + 1) >= m).unwrap_or(true)).map(|(_, n)| *n).collect();
         // the selection: one wildcard path, or one concrete path per attribute (in the same order)
         let concrete = !b.is_array() && b["concrete"] == true;
-        let paths = if concrete { (0..items.len()).map(|i| (Some(1), Some(101), Some(i as u32))).collect() } else { vec![(Some(1), Some(101), None)] };
+        let paths = if concrete { (0..items.len()).map(|i| (Some(1), Some(101), Some(i as u32))).collect() } else if split.is_some() { vec![(Some(1), None, None)] } else { vec![(Some(1), Some(101), None)] };
+        let dv_filters = match dvf { "match" => vec![(1u16, 101u32, 1u32)], "mismatch" => vec![(1u16, 101u32, 7u32)], _ => vec![] };
         let sees_events = ev_mode == "wild" || ev_mode == "both";
         let n_status = if ev_mode == "missing" || ev_mode == "both" { 1 } else { 0 };
-        let req = Req { kind: "read".into(), paths, timed: false, ev_paths, late: false };
+        let req = Req { kind: "read".into(), paths, timed: false, ev_paths, late: false, dv_filters, ev_min };
         tr.ev(json!({"ev": "Reset", "run": bi}));
         // what the node is built with: the transmit buffer of an exchange and the largest datagram the transport sends
         tr.ev(json!({"ev": "Req", "items": expect, "events": if sees_events { evs.clone() } else { vec![] }, "evstatus": n_status,
